@@ -6,7 +6,7 @@ func init() {
 	checks["C20"] = func(c *CheckCtx) {
 		params := map[string]int64{"maxlen": 8}
 		if c.Tier == "thorough" {
-			params = map[string]int64{"maxlen": 10}
+			params = map[string]int64{"maxlen": 10, "fam7sym": 1}
 		}
 		cfg := &HarnessCfg{Name: "VerifC20_PathGuard", Pkg: repoMod + "/pkg/storage/pebbledb", Solver: "z3", Params: params,
 			Stubs: map[string]Intrinsic{
